@@ -25,7 +25,9 @@ def hang_sig(case):
 
 
 def bounds(tier):
-    return {"partition_n": 6, "schedule_bound": 1 if tier == "quick" else 2, "workers": [2, 3]}
+    return {"partition_n": 6, "schedule_bound": 1 if tier == "quick" else 2, "workers": [2, 3],
+            "note": "thorough: bound 2 for W=2 (both configurations) and for W=3 on the regressor configuration; W=3 on the "
+                    "class-borrowing configuration stays at bound 1 (bound 2 there exceeds 10^6 schedules)"}
 
 
 DESIGNS = {
@@ -63,9 +65,12 @@ def cases(tier, seed):
                 if cfg == "reg" and op == "predict_proba":
                     continue
                 heavy = op == "fit" and (tier == "thorough" or (cfg == "clf-borrow" and W == 3))
-                K = (48 if cfg == "clf-borrow" else 8) if (heavy and tier == "thorough") else (6 if heavy else 1)
+                bb = b
+                if tier == "thorough" and op == "fit" and cfg == "clf-borrow" and W == 3:
+                    bb = 1      # bound 2 with three workers on the 100-point borrowing trace is > 10^6 schedules: not affordable
+                K = (48 if (cfg == "clf-borrow" and bb == 2) else 8) if (heavy and tier == "thorough") else (6 if heavy else 1)
                 for k in range(K):
-                    yield {"kind": "schedule", "op": op, "W": W, "cfg": cfg, "bound": b, "part": [k, K]}
+                    yield {"kind": "schedule", "op": op, "W": W, "cfg": cfg, "bound": bb, "part": [k, K]}
     yield {"kind": "freerun"}
 
 
